@@ -27,6 +27,9 @@ ob("ANIcreate_nofault", ["C11"], entry="h_ANIcreate_nofault", enforce="ANIcreate
 # the complement of both findings (no ref collision, no tree-insertion fault)
 ob("ANIcreate_rest", ["C11"], entry="h_ANIcreate_rest", enforce="ANIcreate", replace=["ANIcreate_ann_tree"], **CRW)
 
+# the four counts of ANfileinfo (each from its own type's tree; unloaded trees loaded first)
+ob("ANfileinfo", ["C11"], entry="h_ANfileinfo", enforce="ANfileinfo", replace=["ANIcreate_ann_tree"], **CRW)
+
 DG = dict(unit="dfan_get_u.c", file="hdf/src/dfan.c", cex_unwind=14, objbits=8, replace=["DFANIopen", "DFANIlocate"],
           trusted=["DFANIopen (ASSUMED contract: yields the file id or fails)", "DFANIlocate (ASSUMED contract: yields the located annotation ref, 0 = none)",
                    "Hstartread/Hinquire/Hlength/Hread/Hendaccess/Hclose (one ordinary element; Hread semantics of hfile.c incl. length 0 = to the end)",
@@ -40,3 +43,7 @@ ob("DFANIgetann_room", ["C11"], entry="h_DFANIgetann_room", enforce="DFANIgetann
 # faithful byte-by-byte Hread model instead of the sparse one, sizes capped
 ob("DFANIgetann_room_b", ["C11"], entry="h_DFANIgetann_room", enforce="DFANIgetann", mode="bounded",
    bound="stored element <= 12 bytes, maxlen <= 12", defines=["H4V_CEX"], unwind=14, **DG)
+
+# the file-annotation enumeration of the single-file interface: one cursor per kind, a read moves only its own
+ob("DFANIgetfann", ["C11"], entry="h_DFANIgetfann", enforce="DFANIgetfann", unit="dfan_get_u.c", file="hdf/src/dfan.c", cex_unwind=14, objbits=8,
+   trusted=DG["trusted"] + ["Hnextread (ghost successor element)", "A-MAXLEN: maxlen >= 1"])
